@@ -9,7 +9,7 @@ def program(rng, final_ei=True):
     def body(n):
         out = []
         for _ in range(n):
-            k = rng.below(12)
+            k = rng.below(13)
             if k == 0: out += [rng.choice([0x06, 0x0E, 0x16, 0x1E, 0x3E]), rng.below(256)]
             elif k == 1: out += [0x80 + rng.below(64)]
             elif k == 2: out += [rng.choice([0x04, 0x0C, 0x14, 0x3C, 0x05, 0x0D, 0x3D, 0x23, 0x13, 0x03])]
@@ -21,6 +21,7 @@ def program(rng, final_ei=True):
             elif k == 7: out += [0x21, 0x00, 0x40, 0x01, rng.below(5) + 2, 0x00, 0x3E, rng.below(3), 0xED, rng.choice([0xB1, 0xB9])]
             elif k == 8: out += [0x21, 0x00, 0x41, 0x01, 0x20, rng.below(3) + 1, 0xED, rng.choice([0xB3, 0xBB])]
             elif k == 9: out += [0xD3, 0x20]
+            elif k == 12: out += [0xED, 0x57, rng.choice([0x00, 0x47, 0x4F])]   # LD A,I (P/V = IFF2) then NOP / LD B,A / LD C,A
             else: out += [rng.choice([0x00, 0x07, 0x17, 0x2F, 0x37, 0xEB, 0xD9, 0x08])]
         return out
     code += body(6)
